@@ -88,11 +88,11 @@ let parse_of s = if s = "garbage" then None else Some (dgram_of s)
 let z s = z_of_int (int_of_string s)
 
 let run = function
-  | trace :: "new" :: acc :: _ ->
+  | _ :: trace :: "new" :: acc :: _ ->
     Hashtbl.replace worlds trace { net = net_new (acc = "1"); now = 0; dead = false }; "ok"
-  | trace :: "clock" :: t :: _ ->
+  | _ :: trace :: "clock" :: t :: _ ->
     (Hashtbl.find worlds trace).now <- int_of_string t; "ok"
-  | trace :: opname :: rnd :: args ->
+  | _ :: trace :: opname :: rnd :: args ->
     let w = Hashtbl.find worlds trace in
     if w.dead then "dead" else begin
       let env = { e_now = z_of_int w.now; e_rand = rand_of rnd } in
